@@ -22,8 +22,9 @@ def check(path, truth=None, tag=''):
         v('unparseable', str(e))
         return bad, None
     raw = sp.raw
-    if sp.nhb != 2:
-        v('header-block-count', 'bytes 0-3 = %d, a written file has 2 header blocks' % sp.nhb)
+    # (a writer derived from an original-format file - one header block, no header-word table - keeps that layout: truth['nhb'], truth['legacy_table'])
+    if sp.nhb != truth.get('nhb', 2):
+        v('header-block-count', 'bytes 0-3 = %d, expected %d header blocks' % (sp.nhb, truth.get('nhb', 2)))
     nd = 2 if sp.is2d else 3
     # the specification only says "bits-per-voxel (negative signifying reciprocal)": any power of two is a well-formed rate
     # (which rates a writer must accept is C19's question, not conformance)
@@ -44,9 +45,9 @@ def check(path, truth=None, tag=''):
     if sp.hlen != 4 * sp.grid_traces:
         v('header-array-length', 'array length field %d != 4 x %d grid traces' % (sp.hlen, sp.grid_traces))
     keys = [r[0] for r in sp.table]
-    if keys != KEYS:
+    if keys != KEYS and not (truth.get('legacy_table') and not any(keys)):
         v('table-keys', 'header-word table does not list the 89 field offsets in order: %s...' % keys[:6])
-    stored = [r[0] for r in sp.table if r[2] == r[0] and r[1] == 0]
+    stored = [r[0] for r in sp.table if r[2] == r[0] and r[1] == 0 and r[0] != 0]       # (all-zero rows: table of an original-format file)
     if len(stored) != sp.narr:
         v('array-count', 'header says %d arrays, table has %d self-referencing rows' % (sp.narr, len(stored)))
     seen = set()
